@@ -113,11 +113,15 @@ def slice_insertions_st(draw, scenario, where="transforms", max_ins=3, **kw):
             continue
         v, m = dim_ids(var, d.get("part"))
         ins = draw(insertions_st(v, m, max_ins=max_ins, **kw))
-        place = where if where != "either" else draw(st.sampled_from(["transforms", "view"]))
+        place = where if where != "either" else draw(
+            st.sampled_from(["transforms", "view", "both"]))
         if place == "view" and var["type"] == "cat":
             var["view_insertions"] = ins
         else:
             tx.setdefault(name, {})["insertions"] = ins
+            if place == "both" and var["type"] == "cat":
+                # the variable carries its own (different) insertions; the analysis' win
+                var["view_insertions"] = draw(insertions_st(v, m, max_ins=max_ins, **kw))
         inforce[key] = ins
     return tx, inforce
 
